@@ -74,6 +74,9 @@ class CmaStrategy(HoloPyObject):
                  parallel='auto'):
         self.npixels = npixels
         self.popsize = popsize
+        self.resample_pixels = resample_pixels
+        self.parent_fraction = parent_fraction
+        self.weight_function = weight_function
         if resample_pixels:
             self.new_pixels = self.npixels
         else:
